@@ -97,3 +97,8 @@ package arg
 //@   assigns nothing
 //@   ensures arity: len(input) != 1 ==> !result0 && result1 != nil
 //@   ensures no_error_on_well_typed_input: len(input) == 1 ==> result1 == nil
+
+// ---- the Expr interface: what every implementation promises (behavioural subtyping) -----------------------------------
+//@ extern func (github.com/tencent/goom/arg.Expr).Eval
+//@   assigns nothing
+//@   ensures one_input_no_error: len(input) == 1 ==> result1 == nil
